@@ -47,7 +47,10 @@ def write(prop, tier, seed, mod, *, evaluations, generated, distinct_nontrivial,
         "violations": int(violations),
     }
     validate(doc)
-    d = os.path.join(HERE, "evidence")
+    # runs against a patched scratch copy of the sources (tools/sensitivity.py) must not overwrite the
+    # evidence of /repo itself
+    d = os.environ.get("VERIF_EVIDENCE_DIR") or os.path.join(HERE, "evidence")
+    os.makedirs(d, exist_ok=True)
     os.makedirs(d, exist_ok=True)
     tmp = os.path.join(d, f".{prop}.json.tmp")
     with open(tmp, "w") as f:
